@@ -29,6 +29,9 @@ func genGated(r *core.Rand, prop string, weights []int, minA, maxA int) *core.Sc
 	if r.P(1, 4) {
 		sc.Cfg["overtake"] = 1 // a session's own changes may overtake updates queued for it (finding F07)
 	}
+	if r.P(1, 4) {
+		sc.Cfg["lazyuid"] = 1 // the client does not ask for the UIDs of newly announced messages
+	}
 	for _, k := range []string{"preselect", "selfcopy"} {
 		if r.P(1, 6) {
 			sc.Cfg[k] = 1 // enable an interleaving class that triggers a separately reported defect
